@@ -58,8 +58,32 @@ func main() {
 	trm := flag.String("term", "", "print the E7 terms of the results of module functions whose key contains this string")
 	bnd := flag.String("bounds", "", "evaluate the bounds obligations of module functions whose key contains this string")
 	dump := flag.String("dump", "", "print the SSA of module functions whose key contains this string")
+	ncf := flag.String("nc", "", "print the necessary conditions of every block of module functions whose key contains this string")
 	wfuncs := flag.String("write-funcs", "", "write the function keys of -repo (the reference tree) to this file and exit")
 	flag.Parse()
+	if *ncf != "" {
+		p, err := Load(LoadConfig{Dir: *repo})
+		if err != nil {
+			fmt.Fprintln(os.Stderr, err)
+			os.Exit(2)
+		}
+		activeProg = p
+		for _, fn := range p.Funcs {
+			if !strings.Contains(p.FuncKey(fn), *ncf) {
+				continue
+			}
+			fmt.Println("###", p.FuncKey(fn))
+			ff := p.Facts(fn)
+			for _, b := range fn.Blocks {
+				var fs []string
+				for _, f := range ff.NC(b) {
+					fs = append(fs, p.FactString(f))
+				}
+				fmt.Printf("%d (%s) infeasible=%v: %s\n", b.Index, b.Comment, ff.Infeasible(b), strings.Join(fs, " ; "))
+			}
+		}
+		return
+	}
 	if *wfuncs != "" {
 		if err := writeRefFuncs(*repo, *wfuncs); err != nil {
 			fmt.Fprintln(os.Stderr, "obfsvet:", err)
